@@ -144,11 +144,14 @@ def run(prop, tier, seed, replay=None):
     p = harness(["run", "--scn", scn_file, "--out", ev_file, "--runs", runs, "--runs-big", runs_big, "--seed", seed,
                  "--pairs", 2 if tier == "quick" else 3, "--threads", 4])
     events = [l for l in ev_file.read_text().splitlines() if l.strip()]
+    vf.log(f"harness: {len(events)} input sets executed")
     if len(events) != len(scns):
         raise vf.ToolError(f"harness recorded {len(events)} events for {len(scns)} scenarios")
     nself = 0 if replay else selftest(work, events, model)
+    vf.log(f"selftest: {nself} corruptions rejected")
     verdicts, st, tr = vf.judge_events(work, "Trace_MultiParse.tla", "Trace_MultiParse.cfg", events, chunk=500, jobs=4, timeout=1500)
     rep.add_states(st, tr)
+    vf.log(f"trace spec: {len(events)} events judged, {len(verdicts)} not clean")
     # ---- counts (measured on this run) ----
     calls = perms = ndat = multi = 0
     observed_dep = 0
